@@ -415,7 +415,7 @@ def runHeader (bs : Bytes) : String :=
     let peak := (readBody length avail).2.2
     if peak ≥ 65536 then toString peak else "small"
   match parseFrame bs with
-  | .ok h => s!"hdr ok {h.flags},{h.stream},{h.opcode} len={h.body.length} cap=" ++ capS h.body.length (bs.length - 9)
+  | .ok h => s!"hdr ok {h.flags},{h.stream},{h.opcode} len={h.body.length} left={bs.length - 9 - h.body.length} cap=" ++ capS h.body.length (bs.length - 9)
   | .error "hdr.closed" =>
     "hdr err closed cap=" ++ capS (beNat ((bs.drop 5).take 4)) (bs.length - 9)
   | .error k => "hdr err " ++ (k.drop 4).toString ++ " cap=small"
